@@ -127,6 +127,49 @@ def run(ctx, proof):
             model_cases.append({"comp": comp, "n": n, "v": v, "K": list(key), "stale": None,
                                 "stream": "exact" if exact else "float", "src": "c07-" + klass})
         ctx.sample({"computer": comp, "n": n, "game": [float(x) for x in v][:16], "mode": mode}, limit=4)
+    # the same statement on ONE long-lived object (how the environments use it): reveal after reveal on the same game object,
+    # recomputing in place; also beyond 8 players for the memoised computers (prefixes of chains; negative-valued families
+    # included, where a too-high stale number is not a valid lower bound)
+    chain_plan = [("superadditive_cached", "sa", 5, 2, 99), ("sam_apx_1", "sam", 5, 2, 99), ("superadditive", "sa", 4, 1, 99),
+                  ("superadditive_cached", "sam", 9, 2, 7), ("sam_apx_1", "sam", 9, 1, 5)]
+    if not ctx.quick:
+        chain_plan = [(c, k, n, cnt * 5, pre) for (c, k, n, cnt, pre) in chain_plan] + \
+            [("superadditive_cached", "sam", 10, 2, 6), ("sam_apx_10", "sam", 9, 2, 5), ("superadditive_cached", "sa", 9, 3, 8)]
+    for comp, klass, n, cnt, prefix in chain_plan:
+        for _ in range(cnt):
+            if klass == "sam":
+                v, src = campaign.repo_generator_game(rng, n, campaign.SAM_GENS)
+            else:
+                v, src = campaign.repo_generator_game(rng, n, campaign.SA_GENS)
+            if len(v) != 2 ** n:
+                continue
+            scale = max([1.0] + [abs(float(x)) for x in v])
+            eps = 2e-9 * scale
+            g = bl.make_game(comp, n, v, games.minimal_ids(n))
+            g.compute_bounds()
+            prev, prev_g = bl.table_of(g), gaps_of(g)
+            opt = games.optional_ids(n)
+            order = rng.sample(opt, min(len(opt), prefix))
+            done = []
+            for s_ in order:
+                g.reveal_value(float(v[s_]), Coalition(s_))
+                g.compute_bounds()
+                done.append(s_)
+                cur, cur_g = bl.table_of(g), gaps_of(g)
+                ctx.evaluations += 1
+                ctx.count("same_object_chain_n", n)
+                fails = [(i, "interval widened", a, b) for i, (a, b) in enumerate(zip(prev, cur))
+                         if b[1] < a[1] - eps or b[2] > a[2] + eps]
+                geps = 1e-9 * scale * (2 ** n)
+                fails += [(name, "gap increased", prev_g[name], cur_g[name]) for name in cur_g if cur_g[name] > prev_g[name] + geps]
+                if fails:
+                    ctx.violation(f"same object, reveals {done}: revealing coalition {s_} hurts ({comp}, {src}, n={n}): {fails[:3]}",
+                                  {"comp": comp, "n": n, "generator": src, "v": [float(x) for x in v] if n <= 6 else "regenerate from generator@seed",
+                                   "reveals_in_order": done, "failures": str(fails[:6])})
+                    break
+                if any(b[1] > a[1] or b[2] < a[2] for a, b in zip(prev, cur)):
+                    ctx.nontrivial.add(("chain", comp, n, src, tuple(done)))
+                prev, prev_g = cur, cur_g
     evals = ctx.evaluations
     # the four registered gap functions against the model (theories/Env.v ev_gap; l2 through its square)
     glines, gmeta = [], []
